@@ -371,12 +371,24 @@ def run_item(item):
         if info.kind != 'file':
             return bad('header-missing:' + s.kind, 'expected the file header of section %d (%s), found a %s row' % (si, s.kind, info.kind), exp, info.text[:200])
         got = ''.join(c.ch for c in info.row.cells if gen.TAG_BY_RGB.get(c.fg) == 'file').strip()
+        noted = True
         if s.kind in ('binary_renamed', 'binary_copied'):
-            got = got.replace(' (binary file)', '')     # the note may or may not be shown with the two names
+            # the note may be shown with the two names - or the 'Binary files' line follows the header as it is
+            noted = ' (binary file)' in got
+            got = got.replace(' (binary file)', '')
         if norm(got) != norm(exp):
             return bad('header-text:' + s.kind, 'file header of a %s section does not name the right file/event' % s.kind, exp, got)
         counters['file_headers'] += 1
         pos += 1
+        if not noted:
+            q = pos
+            while q < len(infos) and infos[q].kind == 'blank':
+                q += 1
+            if q < len(infos) and infos[q].kind == 'text' and infos[q].text.startswith('Binary files '):
+                pos = q + 1
+            else:
+                return bad('binary-not-reported:' + s.kind, 'a %s section: neither its header nor a line after it says that the file is binary' % s.kind,
+                           'a "(binary file)" note or the "Binary files ... differ" line', infos[q].text[:100] if q < len(infos) else 'end of output')
         if s.kind == 'submodule_log':
             if pos < len(infos) and infos[pos].kind == 'text':
                 pos += 1
